@@ -64,11 +64,17 @@ def gen_cmd(rng, k, script_mode):
     if kind == "capture":
         inner = rng.choice(["vp_out K " + tag, "vp_out K %s | vp_st flt 0 %s" % (tag, tag), "alias", "minfd",
                             "vp_status 2 " + tag, "vp_nonexistent", "vp_out K %s 2>&1" % tag,
+                            # the captured command has redirections of its own
+                            "vp_out K %s > cf1" % tag, "vp_out K %s 2> cf2" % tag, "vp_out K %s > cf1 2> cf2" % tag,
+                            "vp_out K %s >> cf1" % tag, "vp_out K %s | vp_io C %s > cf1" % (tag, tag), "vp_io C %s <<< w 2> cf2" % tag,
                             "vp_out K %s | vp_io C %s | vp_st flt 0 %s" % (tag, tag, tag)] +
                            (["myfn a " + tag] if script_mode else []))
         form = rng.choice(["$(%s)", "`%s`", "x$(%s)y", "\"$(%s)\""])
         outer = rng.choice(["vp_argv %s " + tag, "vp_argv %s " + tag + " | vp_st snk " + tag, "V=%s"])
-        return outer % (form % inner), kind, ["inner=" + inner.split()[0], "form=" + form[0]]
+        feats = ["inner=" + inner.split()[0], "form=" + form[0]]
+        if " cf" in inner:
+            feats.append("inner-redirected=" + "+".join(w for w in inner.split() if w in (">", ">>", "2>")))
+        return outer % (form % inner), kind, feats
     if kind == "here":
         return "vp_io H%d %s <<< word%d" % (k, tag, k), kind, []
     if kind == "fail":
